@@ -1,6 +1,6 @@
 """Scenario generation for the App family (C12 C13 C14, application-level C09)."""
 import random
-CLS = ["prio", "ord", "un"]
+CLS = ["prio", "ord", "un", "mark"]      # mark = Priority marker without Order(): sequenced with the unordered ones
 ORDS = [-1, 0, 1, 0, 2, -1000000, 1000000, 5, -7]   # +-1000000 stand for MinInt / MaxInt (harness maps them)
 
 
@@ -37,7 +37,8 @@ def scenario(rng, sid, focus, big=False):
         n = rng.randint(0, 12 if big else 5)
         if rng.random() < 0.12:
             n = rng.randint(9, 24)      # more closers than any plausible worker-pool bound
-        sc["closers"] = [dict(cls="un", ord=0, fail=rng.random() < 0.4, doc="") for _ in range(n)]
+        # up to three closers are realised by distinct FIELD-LESS types (the harness takes the first three marked ones)
+        sc["closers"] = [dict(cls="un", ord=0, fail=rng.random() < 0.4, doc="", zero=rng.random() < 0.4) for _ in range(n)]
         co = list(range(1, n + 1)); rng.shuffle(co)
         sc["closeOrder"] = co
         if focus == "C14":
